@@ -165,7 +165,9 @@ def stream(a, b, pre, rounds, K=2, tiers=('quick', 'thorough'), timeout=900, ext
         bounds={'threads': 2, 'free_rounds': rounds, 'forced_rounds': 2, 'loop_unroll': K, 'lanes': 2, 'tasks': pre + {'push': 1, 'push2': 2}.get(a, 0) + {'push': 1, 'push2': 2}.get(b, 0),
                 'isolation_tags': 'symbolic', 'lane_hints': 'symbolic'}))
 
-stream('push', 'pop', 1, 2)
+stream('push', 'pop', 1, 2)        # pop drains the lane while a push refills it
+stream('push', 'spec', 1, 2, K=1)  # same with pop_specific / look_specific (symbolic isolation)
+stream('push', 'push', 1, 2)       # two pushes contend for one lane mutex (the loser moves on to the other lane)
 
 MANIFEST = dict(
   level_text='Bounded model checking of the real scheduler data structures that decide who runs a task: for 2-3 threads every interleaving (at '
